@@ -42,7 +42,7 @@ Definition render_raw (alg : algorithm) (dlo : option nat) (dbg : bool) (old new
   | Ok (cs, c) =>
       "calls=" ++ calls_s cs ++ " err=0 probes=" ++
       nat_s (match dlo with None => 0 | Some _ => probes c end) ++
-      " cmps=" ++ nat_s (cmps c) ++ " post=" ++ nat_s (post_cmps c)
+      " cmps=" ++ nat_s (cmps c) ++ " post=" ++ nat_s (post_cmps c) ++ " ss=1"
   | Panic => "PANIC"
   | OutOfFuel => "OUTOFFUEL"
   end.
